@@ -19,11 +19,12 @@ from typing import Any, Optional
 
 from harness.core import Ctx, Driver
 from harness import lib_cm as cm
+from harness.props import c01_exact
 
-PROPS = 'XsVerif.Props.C01'
+PROPS = ['XsVerif.Props.C01', 'XsVerif.Props.C01Exact']
 AUDIT = 'XsVerif.Audit.C01'
-LEAN_TARGETS = ['XsVerif.Props.C01', 'drv_c01']
-LEANCHECK = ['XsVerif.Model.Rx', 'XsVerif.Lemmas.Rx', 'XsVerif.Model.Particle', 'XsVerif.Props.C01']
+LEAN_TARGETS = ['XsVerif.Props.C01', 'XsVerif.Props.C01Exact', 'drv_c01']
+LEANCHECK = ['XsVerif.Model.Rx', 'XsVerif.Lemmas.Rx', 'XsVerif.Model.Particle', 'XsVerif.Props.C01'] + c01_exact.LEANCHECK
 RULE = ('case = (XSD version, content model, child word). Models: the complete family with ≤2 leaves over {a,b} '
         '(+ wildcard leaf) with occurrences from {1,?,*,+,{2,2},{1,2},{0,0}} nested to depth 2, a seeded stratified '
         'sample of the 3-leaf family, seeded random larger models (depth ≤3, substitution-group heads, wildcards, '
@@ -316,11 +317,29 @@ def run_parallel(ctx: Ctx, drv: Optional[Driver]) -> None:
         for i in range(0, len(models), 40):
             jobs.append((models[i:i + 40], v11, maxlen, fam, oc, False, ctx.rng.random()))
     nproc = max(2, min(12, (os.cpu_count() or 4) - 2))
-    with mp.get_context('fork').Pool(nproc) as pool:
-        for k, prepared in enumerate(pool.imap_unordered(prepare_batch, jobs, chunksize=1)):
+    # bounded window of outstanding batches: the workers prepare faster than the parent judges, and an
+    # unbounded imap queue once grew to 43 GB (the parent was OOM-killed)
+    from collections import deque
+    with mp.get_context('fork').Pool(nproc, maxtasksperchild=50) as pool:
+        pending: deque = deque()
+        it = iter(jobs)
+        done = 0
+
+        def refill() -> None:
+            while len(pending) < 2 * nproc:
+                j = next(it, None)
+                if j is None:
+                    return
+                pending.append(pool.apply_async(prepare_batch, (j,)))
+        refill()
+        while pending:
+            prepared = pending.popleft().get()
+            refill()
             judge_batch(ctx, drv, prepared)
+            del prepared
+            done += 1
             if ctx.time_left() < 120:
-                ctx.notes.append(f'time budget reached after {k + 1} of {len(jobs)} batches')
+                ctx.notes.append(f'time budget reached after {done} of {len(jobs)} batches')
                 pool.terminate()
                 break
     ctx.extra['batches'] = len(jobs)
@@ -330,6 +349,7 @@ def run(ctx: Ctx, driver_ok: bool) -> None:
     drv = Driver('drv_c01') if driver_ok else None
     corpus(ctx)
     encoder_family(ctx, drv, ctx.pick(40, 400), known_fid='C05-F10')
+    c01_exact.run_exact(ctx, drv)       # fragment on which the port is PROVED exact + encode/validate agreement
     if not ctx.quick():
         run_parallel(ctx, drv)
         return
